@@ -2,8 +2,9 @@
 
 Model: coq/Rules/SliceCollapse.v; theorems: coq/Props/C05_slices.v.
 Correspondence: collapse_slice_rule alone on Slice hosts over (dim, start, end, axis incl. negative, step, static / dynamic /
-unknown data shape): fired? == SliceCollapse.check1.  collapse_slice2_rule and SlicesSplit: fired => the model's side
-condition holds (checked in Python from the generated parameters) + direct oracle.
+unknown data shape): fired? == SliceCollapse.check1.  collapse_slice2_rule: hand-written and generated multi-axis hosts (1-3 sliced axes, static /
+named / unnamed dims, steps), fired => SliceCollapse.check2 (compared in Coq; theorem C05_collapse_slice2_rule).  SlicesSplit: fired => the
+model's side condition holds (checked in Python from the generated parameters).  Direct oracle on every fired instance.
 """
 from __future__ import annotations
 
@@ -165,7 +166,45 @@ def family(ctx):
         ([2, 3, 4], [2, None, 4], [-2], [INT64_MAX], [1], [2, None, 4]),
     ]:
         insts2.append((sh, decl, s, e, ax, [1] * len(ax), False, out))
+    # generated multi-axis instances: 1-3 sliced axes of a rank 1-4 tensor, starts/ends drawn around the extents, a few with
+    # a step other than 1, dims static / named / unnamed (named dims carry the same name on both sides only when the slice keeps the extent)
+    for _ in range(40 if ctx.tier == "quick" else 400):
+        r = rng.randrange(1, 5)
+        sh = [rng.randrange(0, 4) if rng.random() < 0.15 else rng.randrange(1, 4) for _ in range(r)]
+        k = rng.randrange(1, min(3, r) + 1)
+        axn = rng.sample(range(r), k)
+        full = rng.random() < 0.55
+        ss, ee, st = [], [], []
+        for a in axn:
+            d = sh[a]
+            if full:
+                ss.append(rng.choice([0, -d, -d - 3]) if d else 0)
+                ee.append(rng.choice([d, d + 2, INT64_MAX]))
+            else:
+                ss.append(rng.choice([0, 0, 1, -1]))
+                ee.append(rng.choice([d, d - 1, INT64_MAX, -1]))
+            st.append(1 if rng.random() < 0.9 else 2)
+        ax = [a if rng.random() < 0.5 else a - r for a in axn]
+        decl = list(sh)
+        for j in range(r):
+            u = rng.random()
+            if u < 0.2:
+                decl[j] = f"D{j}"
+            elif u < 0.3:
+                decl[j] = None
+        x = U.int_data(sh, "float32", 0)
+        want = _np_slice(x, ss, ee, axn, st)
+        out = [dd if (not isinstance(dd, int) and w == n) else (w if isinstance(dd, int) else None) for w, n, dd in zip(want.shape, sh, decl)]
+        insts2.append((sh, decl, ss, ee, ax, st, None, out))
     fired2 = 0
+    cases2, meta2 = [], []
+
+    def _sd(d, names={}):
+        if isinstance(d, int):
+            return f"(DSt {cz(d)})"
+        if d is None:
+            return "DUn"
+        return f"(DSy {common.cnat(names.setdefault(d, len(names)))})"
     for i, inst in enumerate(insts2):
         sh, decl, s, e, ax, st, expect = inst[:7]
         dtype = ("float32", "int64")[i % 2]
@@ -177,6 +216,8 @@ def family(ctx):
         fired = "Slice" not in U.ops(new)
         ctx.case(("collapse2", len(sh), len(ax), tuple(st), fired, tuple("int" if isinstance(d, int) else ("unnamed" if d is None else "named") for d in decl),
                   tuple("int" if isinstance(d, int) else ("unnamed" if d is None else "named") for d in out_decl)))
+        cases2.append(f"(Some {clist([_sd(d) for d in decl])}, Some {clist([_sd(d) for d in out_decl])}, Some {clist([cz(v) for v in st])}, {common.cbool(fired)})")
+        meta2.append((sh, decl, s, e, ax, st, out_decl, fired))
         same = list(want.shape) == list(sh) and all(v == 1 for v in st)
         if fired and not same:
             pass   # judged by the oracle
@@ -191,6 +232,16 @@ def family(ctx):
                                {"family": "slices", "rule": "collapse_slice2_rule", "x_shape": decl, "starts": s, "ends": e, "axes": ax, "steps": st})
             if good and not all(v == 1 for v in st):
                 ctx.tie_broken("correspondence", "slices:collapse_slice2_rule", f"fired with steps {st}: the model's side condition (all steps 1) is false")
+
+    ok2, vals2, raw2 = ctx.coq_eval(["OV.Rules.SliceCollapse"], f"Definition cases2 : list case2 := {clist(cases2)}.\nEval vm_compute in (disagreeing2 0 cases2).", name="slices2")
+    if not ok2:
+        ctx.tie_broken("correspondence", "slices:collapse2-model-evaluation", raw2[-800:])
+        return
+    bad2 = common.parse_nat_list(vals2[0])
+    for i in bad2[:5]:
+        ctx.tie_broken("correspondence", "slices:collapse_slice2_rule", f"(shape, decl, starts, ends, axes, steps, out decl, fired) = {meta2[i]}: fired although SliceCollapse.check2 is false")
+    ctx.obligation("correspondence slices: collapse_slice2_rule fires only where Rules/SliceCollapse.v `check2` holds (theorem C05_collapse_slice2_rule)", not bad2)
+    U.guard(ctx, "slices:collapse_slice2_rule", fired2, 8)
 
     # ---------------------------------------------------------------- SlicesSplit
     # The two-output pattern binds both pattern nodes to ONE graph Slice (observed), so the rule can only fire on a single
@@ -217,5 +268,5 @@ def family(ctx):
     ctx.cover(collapse1_instances=len(cases), collapse1_fired=fired_n, collapse1_model_disagreements=len(bad), collapse_near_misses=nm,
               collapse2_instances=len(insts2), collapse2_fired=fired2, slicesplit_fired=fired3)
     ctx.sample({"family": "slices", "case": [str(x) for x in meta[len(meta) // 2]]})
-    ctx.assume("collapse_slice2_rule with several sliced axes and SlicesSplit's split semantics on zero-size dims are observed by the oracle only; "
-               "annotations (value_info shapes) of the host are truthful")
+    ctx.assume("SlicesSplit's split semantics on zero-size dims are observed by the oracle only; annotations (value_info shapes) of the host are truthful; "
+               "ONNX Slice with several axes (steps 1) slices the listed axes one after another")
